@@ -12,6 +12,7 @@ import subprocess
 import sys
 from pathlib import Path
 
+READY = True
 LEVEL = 'exploration'
 TECHNIQUE = ('post-condition monitor on the real parser+converter (_import_proof) against an independent Appendix-B codec and '
              'mandatory-hypothesis oracle; exhaustive step numbers 1..10^6; hash-seed sweep in fresh subprocesses')
